@@ -5,6 +5,7 @@ import (
 	"go/constant"
 	"go/token"
 	"go/types"
+	"os"
 	"sort"
 	"strings"
 
@@ -135,6 +136,7 @@ func runC08(c *Ctx) {
 	c.Rule("C08.O4", "exhaustiveness", "every state constant of state.go has a case in the state switch of Parse", 1)
 	c.Rule("C08.O5", "E4", "the ten CR/LF states: expected byte or a non-nil error return", 10)
 	c.Rule("C08.O6", "E4", "Parse defers a closure that recovers and unlocks; DataHandler and TLSDataHandler defer recover()", 3)
+	c.Rule("C08.O8", "E9", "the parser's transition relation (state case -> nextState target, read off Parse) equals the grammar's table: no state that examines a framing byte can be bypassed", 1)
 	c.Rule("C08.O7", "E4", "no processor callback between an error's detecting comparison and its return; stateClose short-circuits at entry", 2)
 
 	// ------------------------------------------------------------------ O1
@@ -346,6 +348,7 @@ func runC08(c *Ctx) {
 	if parse != nil {
 		cases := c.stateCases(parse)
 		consts := c.stateConsts()
+		c08Transitions(c, parse)
 		var missing []string
 		for name, k := range consts {
 			if _, ok := cases[k]; !ok {
@@ -698,4 +701,132 @@ func (c *Ctx) pkgConstInt(pkg, name string) int64 {
 		}
 	}
 	return -1
+}
+
+// stateTransitions extracts the parser's transition relation: for every call of
+// nextState(K) (and every direct store of a constant to Parser.state) inside Parse,
+// the state cases whose body dominates the call.  Calls outside every case are
+// attributed to "*".
+func (c *Ctx) stateTransitions(parse *ssa.Function) map[string]bool {
+	consts := c.stateConsts()
+	name := map[int64]string{}
+	for n, k := range consts {
+		name[k] = n
+	}
+	cases := c.stateCases(parse)
+	fi := c.P.Info(parse)
+	out := map[string]bool{}
+	add := func(in ssa.Instruction, to ssa.Value) {
+		toName := "?"
+		if to == nil {
+			toName = "(message complete)"
+		} else if k, ok := ir.ConstInt(to); ok {
+			toName = name[k]
+		}
+		from := "*"
+		for v, b := range cases {
+			if len(b.Instrs) > 0 && fi.Dominates(b.Instrs[0], in) {
+				from = name[v]
+			}
+		}
+		out[from+" -> "+toName] = true
+	}
+	for _, cs := range c.P.CallsNamed(parse, "(*nbhttp.Parser).nextState") {
+		add(cs.In, cs.Common.Args[1])
+	}
+	for _, cs := range c.P.CallsNamed(parse, "(*nbhttp.Parser).handleMessage") {
+		add(cs.In, nil)
+	}
+	for _, b := range parse.Blocks {
+		for _, in := range b.Instrs {
+			if st, ok := in.(*ssa.Store); ok {
+				if fa, ok := st.Addr.(*ssa.FieldAddr); ok && c.P.FieldKey(fa) == "nbhttp.Parser.state" {
+					add(in, st.Val)
+				}
+			}
+		}
+	}
+	return out
+}
+
+// c08Grammar is the transition relation of the HTTP/1.x state machine as
+// confirmed by reading Parse against RFC 7230 (request line / status line,
+// header lines, Content-Length body, chunked body with extensions and trailers).
+var c08Grammar = []string{
+	"stateBodyChunkData -> stateBodyChunkDataCR",
+	"stateBodyChunkDataCR -> stateBodyChunkDataLF",
+	"stateBodyChunkDataLF -> stateBodyChunkSizeBefore",
+	"stateBodyChunkSize -> stateBodyChunkSizeLF",
+	"stateBodyChunkSizeBefore -> stateBodyChunkSize",
+	"stateBodyChunkSizeLF -> stateBodyChunkData",
+	"stateBodyChunkSizeLF -> stateBodyTrailerHeaderKeyBefore",
+	"stateBodyChunkSizeLF -> stateTailCR",
+	"stateBodyContentLength -> (message complete)",
+	"stateBodyTrailerHeaderKey -> stateBodyTrailerHeaderValueBefore",
+	"stateBodyTrailerHeaderKeyBefore -> stateBodyTrailerHeaderKey",
+	"stateBodyTrailerHeaderKeyBefore -> stateTailLF",
+	"stateBodyTrailerHeaderValue -> stateBodyTrailerHeaderValueLF",
+	"stateBodyTrailerHeaderValueBefore -> stateBodyTrailerHeaderValue",
+	"stateBodyTrailerHeaderValueBefore -> stateBodyTrailerHeaderValueLF",
+	"stateBodyTrailerHeaderValueLF -> stateBodyTrailerHeaderKeyBefore",
+	"stateClientProto -> stateStatusCodeBefore",
+	"stateClientProtoBefore -> stateClientProto",
+	"stateHeaderKey -> stateHeaderValueBefore",
+	"stateHeaderKeyBefore -> stateHeaderKey",
+	"stateHeaderKeyBefore -> stateHeaderOverLF",
+	"stateHeaderOverLF -> (message complete)",
+	"stateHeaderOverLF -> stateBodyChunkSizeBefore",
+	"stateHeaderOverLF -> stateBodyContentLength",
+	"stateHeaderValue -> stateHeaderValueLF",
+	"stateHeaderValueBefore -> stateHeaderValue",
+	"stateHeaderValueBefore -> stateHeaderValueLF",
+	"stateHeaderValueLF -> stateHeaderKeyBefore",
+	"stateMethod -> statePathBefore",
+	"stateMethodBefore -> stateMethod",
+	"statePath -> stateProtoBefore",
+	"statePathBefore -> statePath",
+	"stateProto -> stateProtoLF",
+	"stateProtoBefore -> stateProto",
+	"stateProtoLF -> stateHeaderKeyBefore",
+	"stateStatus -> stateStatusLF",
+	"stateStatusBefore -> stateStatus",
+	"stateStatusCode -> stateStatusBefore",
+	"stateStatusCodeBefore -> stateStatusCode",
+	"stateStatusLF -> stateHeaderKeyBefore",
+	"stateTailCR -> stateTailLF",
+	"stateTailLF -> (message complete)",
+}
+
+func c08Transitions(c *Ctx, parse *ssa.Function) {
+	got := c.stateTransitions(parse)
+	if os.Getenv("NBV_DUMP_TRANSITIONS") != "" {
+		for _, t := range sortedKeys(got) {
+			fmt.Printf("\t%q,\n", t)
+		}
+	}
+	want := map[string]bool{}
+	for _, t := range c08Grammar {
+		want[t] = true
+	}
+	var extra, missing []string
+	for t := range got {
+		if !want[t] {
+			extra = append(extra, t)
+		}
+	}
+	for t := range want {
+		if !got[t] {
+			missing = append(missing, t)
+		}
+	}
+	sort.Strings(extra)
+	sort.Strings(missing)
+	bad := ""
+	if len(extra) > 0 {
+		bad = fmt.Sprintf("transition(s) outside the grammar: %v (a state that checks a framing byte can be bypassed, or input is accepted in a state the grammar does not reach)", extra)
+	}
+	if len(missing) > 0 {
+		bad += fmt.Sprintf(" transition(s) of the grammar that Parse no longer makes: %v", missing)
+	}
+	c.Cond(bad == "", "C08.O8", fnKey(c.P, parse, "transition relation"), c.FnPos(parse), fmt.Sprintf("%d transitions, all in the grammar table", len(got)), strings.TrimSpace(bad))
 }
